@@ -10,6 +10,7 @@ import Rs1090.Proofs.Decode.AllGood
 import Rs1090.Props.C11
 import Rs1090.Model.Decode.Timed
 import Rs1090.Props.C01
+import Rs1090.Proofs.JsonText
 namespace Rs1090.Props.C07
 open Rs1090 Rs1090.Model Rs1090.Model.Message
 
@@ -278,6 +279,77 @@ theorem timed_record_undecoded (cfg : Timed.Config) (bs : List Nat) (ts : Json) 
   unfold Timed.timedJsonCfg
   rw [Option.getD_none, List.append_assoc _ [_] _]
   exact record_wf ts bs [] _ hts rfl (by simp [keyIds]) (by simp [keyIds]) hT hTn hTk
+
+/-! ### one object on one line
+
+`Json.text numText j` (Model/JsonText.lean) is the text `serde_json::to_string` writes for `j` — compact writer, every
+string (values, unit-variant names AND keys) escaped by `format_escaped_str` — with the float printer `ryu` abstracted
+as `numText`, about which only `NumClean` is assumed (its output is made of `0-9 + - . e E` and the letters of `null`).
+No hypothesis about key names: they are escaped like every string. -/
+
+/-- **One JSON object on one line**: the text serde_json writes for whatever the decoder accepts has no control
+    character (nothing below 0x20) — in particular neither a line feed nor a carriage return — and it starts with `{`
+    and ends with `}`. -/
+theorem one_line (numText : Json → List Char) (hn : NumClean numText) (bs : List Nat) (d : Decoded)
+    (h : tryFrom bs = .ok d) :
+    ∃ j, d = .json j ∧
+      (∀ c ∈ j.text numText, 0x20 ≤ c.toNat) ∧ (∀ c ∈ j.text numText, c ≠ '\n' ∧ c ≠ '\r') ∧
+      (j.text numText).head? = some '{' ∧ (j.text numText).getLast? = some '}' := by
+  obtain ⟨kvs, e⟩ := serialises bs d h
+  subst e
+  exact ⟨_, rfl, text_no_control hn _, text_one_line hn _, text_obj_shape numText kvs⟩
+
+/-- the same for `Message::from_bytes` (the pipeline's entry point, which ignores bytes after the frame) -/
+theorem one_line_from_bytes (numText : Json → List Char) (hn : NumClean numText) (bs : List Nat) (d : Decoded)
+    (h : fromBytes bs = .ok d) :
+    ∃ j, d = .json j ∧
+      (∀ c ∈ j.text numText, 0x20 ≤ c.toNat) ∧ (∀ c ∈ j.text numText, c ≠ '\n' ∧ c ≠ '\r') ∧
+      (j.text numText).head? = some '{' ∧ (j.text numText).getLast? = some '}' := by
+  obtain ⟨_, ht⟩ := Rs1090.Props.C01.fromBytes_prefix bs d h
+  exact one_line numText hn _ d ht
+
+/-- **The timed record is one object on one line, under EVERY serialisation configuration**: whatever the time stamp,
+    the frame, the message members (`some kvs`, or `none` for an undecodable frame), the reception records — whose
+    `name` is an arbitrary string, escaped — and the `decode_time` field. -/
+theorem one_line_timed (numText : Json → List Char) (hn : NumClean numText) (cfg : Timed.Config) (ts : Json)
+    (bs : List Nat) (msg : Option (List (Key × Json))) (mdata : List Json) (dt : Option Json) :
+    let t := (Timed.timedJsonCfg cfg ts bs msg mdata dt).text numText
+    (∀ c ∈ t, 0x20 ≤ c.toNat) ∧ (∀ c ∈ t, c ≠ '\n' ∧ c ≠ '\r') ∧ t.head? = some '{' ∧ t.getLast? = some '}' := by
+  intro t
+  exact ⟨text_no_control hn _, text_one_line hn _, text_obj_shape numText _⟩
+
+/-- what the pipeline prints for one reception: decode, then wrap (`Timed.recordCfg`) -/
+theorem one_line_record (numText : Json → List Char) (hn : NumClean numText) (cfg : Timed.Config) (ts : Json)
+    (bs : List Nat) (metadata : List Timed.SensorMeta) (dt : Option Json) (d : Decoded)
+    (h : Timed.recordCfg cfg ts bs metadata dt = .ok d) :
+    ∃ j, d = .json j ∧
+      (∀ c ∈ j.text numText, 0x20 ≤ c.toNat) ∧ (∀ c ∈ j.text numText, c ≠ '\n' ∧ c ≠ '\r') ∧
+      (j.text numText).head? = some '{' ∧ (j.text numText).getLast? = some '}' := by
+  unfold Timed.recordCfg at h
+  cases hd : tryFrom bs with
+  | err e => rw [hd] at h; cases h
+  | panic x => rw [hd] at h; cases h
+  | ok d' =>
+    obtain ⟨kvs, e⟩ := serialises bs d' hd
+    subst e
+    rw [hd] at h
+    cases h
+    exact ⟨_, rfl, one_line_timed numText hn cfg ts bs (some kvs) _ dt⟩
+
+/-- a control character in a computed string (here the receiver `name` `a<LF>b`) is escaped, not printed -/
+example : (Json.chars ['a', '\n', 'b']).text (fun _ => []) = ['"', 'a', '\\', 'n', 'b', '"'] := by decide
+
+/-- `NumClean` is satisfiable (what ryu prints for 1.5) -/
+example : NumClean (fun _ => ['1', '.', '5']) := by
+  intro _; show ∀ c ∈ ['1', '.', '5'], c ∈ numChars; decide
+
+/-- non-vacuity: the text of the repository's test frame, computed by the kernel -/
+example :
+    (match tryFrom [0x8d,0x40,0x6b,0x90,0x20,0x15,0xa6,0x78,0xd4,0xd2,0x20,0xaa,0x4b,0xda] with
+     | .ok (.json j) => j.text (fun _ => [])
+     | _ => []) =
+    "{\"df\":\"17\",\"icao24\":\"406b90\",\"bds\":\"08\",\"id\":4,\"wake_vortex\":\"n/a\",\"callsign\":\"EZY85MH\"}".toList := by
+  decide +kernel
 
 /-! sanity anchors: frames of the repository's own suite serialise -/
 example : ∃ kvs, tryFrom [0x8d,0x40,0x6b,0x90,0x20,0x15,0xa6,0x78,0xd4,0xd2,0x20,0xaa,0x4b,0xda] = .ok (.json (.obj kvs)) := by
